@@ -13,8 +13,11 @@
 (* machine builds it:                                                      *)
 (*   P = [zip   : "ok" | "unreadable" | "save-error" | "save-panic",       *)
 (*        dups  : Seq(kind)      entry names occurring more than once,     *)
-(*        ct    : "ok" | "missing" | "ill-formed"   [Content_Types].xml,   *)
-(*        prels : "ok" | "missing" | "ill-formed"   _rels/.rels,           *)
+(*        ct    : "ok" | "missing" | "ill-formed" | "foreign"              *)
+(*                               [Content_Types].xml ("foreign": its root  *)
+(*                               is not the Types element of the OPC       *)
+(*                               content-types namespace),                 *)
+(*        prels : "ok" | "missing" | "ill-formed" | "foreign" _rels/.rels, *)
 (*        odoc  : Seq(BOOLEAN)   one per officeDocument relationship:      *)
 (*                               does its (internal) target exist?,        *)
 (*        parts : Seq([k, x, xml, wf, ct])]                                *)
@@ -49,11 +52,15 @@ HfKinds     == {"default", "first", "even"}
 \*   dot    ... with a leading dot segment (./word/document.xml)
 \*   updir  ... with a redundant parent segment (word/../word/document.xml, ../word/styles.xml)
 \*   qual   relationship parts and the content-types stream with a namespace prefix, single quotes, other attribute order
+\*   ovr    every part typed by an Override of the content-types stream (no extension default but the one of rels)
+\*   xmlser every XML part written by another serialiser (single quotes, > and " raw in attribute values, CDATA, other
+\*          empty-element form, white space in end tags, comments around the root's end tag): the same documents
+\*   min    the least a producer must write: no style definitions part, no document properties, parts typed by Override
 \*   order  archive entries stored uncompressed in another order, the content-types stream last
 \*   dirs   with explicit directory entries (word/, _rels/, ...), which are not parts
 \*   extra  with parts the library has no model of (thumbnail, custom properties, custom XML item with its own
 \*          relationship part, theme, font table), declared and related as Word does
-SpellClasses == {"asis", "abs", "dot", "updir", "qual", "order", "dirs", "extra"}
+SpellClasses == {"asis", "abs", "dot", "updir", "qual", "ovr", "xmlser", "min", "order", "dirs", "extra"}
 \* how a style that the style manager already holds is edited in place:
 \*   name / run / para  its name / run properties / paragraph properties set from the text class (the definition grows)
 \*   strip  its properties dropped (the definition shrinks)     rebase  its basedOn / next chain re-pointed
@@ -151,7 +158,11 @@ OtherPart(x, isxml, ct) == [k |-> "other", x |-> x, xml |-> isxml, wf |-> IF isx
 ExtraParts == <<OtherPart("jpeg", FALSE, "def"), OtherPart("xml", TRUE, "ovr"), OtherPart("xml", TRUE, "ovr"), OtherPart("xml", TRUE, "ovr"),
                 OtherPart("xml", TRUE, "ovr"), OtherPart("xml", TRUE, "def"), RelsPart("rels")>>
 \* another producer's spelling of a package never changes which parts it has, except that "extra" adds its parts (once)
-Respelt(P, sp) == IF sp = "extra" /\ "other" \notin KindsIn(P) THEN [P EXCEPT !.parts = @ \o ExtraParts] ELSE P
+\* and "min" leaves the document properties out (the style definitions it leaves out as well are written again with the
+\* document: the package of the state is what a save of the document object gives)
+NotProps(q) == q.k \notin {"core", "app"}
+Respelt(P, sp) == IF sp = "extra" /\ "other" \notin KindsIn(P) THEN [P EXCEPT !.parts = @ \o ExtraParts]
+                  ELSE IF sp = "min" THEN [P EXCEPT !.parts = SelectSeq(@, NotProps)] ELSE P
 
 \* singleton XML parts a call creates if absent (besides the main part, which every call may rewrite)
 Creates(op) ==
